@@ -20,7 +20,7 @@ def want(op):
 class C12(Prop):
     pid = "C12"
     title = "resource tree traversal, lookup and reassembly reflect the stored directory"
-    thm_modules = ["PeliteModel.Thm.C12", "PeliteModel.Thm.C12Find"]
+    thm_modules = ["PeliteModel.Thm.C12", "PeliteModel.Thm.C12Find", "PeliteModel.Thm.ImageLayout"]
     gens = [gen_res.gen_wellformed, gen_res.gen_corrupt, gen_res.gen_small, gen_res.gen_offpath, gen_walk.gen_shared_dag]
 
     def oracle(self, op, impl, model, spec):
